@@ -21,6 +21,14 @@ CHECKS = {
    technique="bounded-exhaustive write->parse round trip of the partial-annotation format",
    text="All texts up to 4/5 characters over {a, hiragana, -, |, space, /, backslash} x all {-,|,space} label vectors; reduced texts x every <=1-tag assignment on every character over 9 hostile tags (delimiters, escapes, multi-byte); <=2-character texts x every <=2-tag list per character. Written by the real writer, re-parsed by the real parser, compared on text, every label and every character's tags up to trailing absent tags.",
    note="Trusted: nothing beyond the harness comparison. Outside the bound: longer texts, more than 2-3 tags per character."),
+ "C05": dict(level="model_checking", section="3/C05",
+   technique="explicit-state BFS to fixpoint over real Sentence histories + exhaustive string enumeration for parser totality",
+   text="Part 1: every string up to length 5/6 over {a, hiragana, space, /, backslash, -, |, NUL} (37 449 / 299 593 strings) goes through the three constructors and the three updates from two prior states; nothing may unwind and each update must agree with its constructor (or leave the default sentence). Part 2: breadth-first search over ALL histories of one real Sentence object under a 36-operation alphabet (valid and invalid inputs for each update, reset_tags, five predictors, fill_tags, four filters) until no new state appears (fixpoint, not a depth bound; ~2x10^5 states, ~7x10^6 transitions); every update_* / reset_tags transition out of every reachable state is checked against the fresh constructor, the default sentence and the shape laws (one type per character, n-1 labels, chars x n_tags tag slots, no scores, all accessors/writers/iterators work).",
+   note="State key = 128-bit hash of the full field snapshot exposed by the verif-hooks accessor plus harness bookkeeping, so merged states have the same futures (up to a hash collision). The documented panic (fill_tags after a predict_tags=false predictor) is a disabled transition. Parser content correctness is C03/C04. Outside the bound: inputs outside the pools, strings longer than 6."),
+ "C08": dict(level="model_checking", section="3/C08",
+   technique="explicit-state BFS to fixpoint over real Sentence histories with a fresh-vs-reused differential oracle + exhaustive call-level thread interleavings under a baton scheduler",
+   text="C08a: the same fixpoint search as C05 over the 36-operation alphabet; in every reachable state whose last successful update lies at most 3/4 operations back, the complete public observation (text, types, boundaries, scores, tags, tag count, tokens with spans/surfaces/tags, stored tag candidates where defined, both written forms, each as value-or-panic) must equal that of a freshly constructed sentence given the same input and the same operations; any panic of a legal operation on a reused sentence is a violation. Because the search closes under the alphabet, the verdict covers all finite histories over it. C08b: 2 threads x 4 calls and 3 threads x 3 calls (update_raw, predict, fill_tags) on shared predictors, every interleaving (70 resp. 1680 per assignment) executed on real OS threads that pass a baton, each thread's observation compared with its sequential run.",
+   note="C08b scheduling points are API calls: the code has no lock, atomic or channel that loom/shuttle or this scheduler could pre-empt at, so mid-call interleavings are not explored (they could differ only through unsynchronised shared writes, which need unsafe/interior mutability that Predictor does not have; a compile-time Send+Sync assertion guards the type-level claim). If the schedule search finds violations the history search is skipped (shared state makes the parallel BFS non-replayable)."),
 }
 
 PENDING_REASON = "check not built yet in this round (planned in DESIGN.md section 3); no claim is made"
